@@ -233,10 +233,12 @@ def Impl.adj (cj : K → K) (I : K) : Impl K → Option (Impl K)
       pure (.comp b' a')                         -- order reversal
   | .lscal a s => do
       let a' ← a.adj cj I
-      pure (.lscal a' (cj s))                    -- s.conjugate() * op.adjoint
+      -- real conj(s): conj(s) * op.adjoint; else OperatorRightScalarMult(op.adjoint, conj(s)),
+      -- i.e. y ↦ A*(conj(s)·y) (A* need not be complex linear)
+      pure (if imK cj I (cj s) = 0 then .lscal a' (cj s) else .rscal a' (cj s))
   | .rscal a s => do
       let a' ← a.adj cj I
-      pure (.lscal a' (cj s))                    -- op.adjoint * s.conjugate() ↦ left mult (linear)
+      pure (.lscal a' (cj s))                    -- OperatorLeftScalarMult(op.adjoint, conj(s))
   | .lvec a v => do
       let a' ← a.adj cj I
       pure (.rvec a' (if a.ran.real then v else fun j i => cj (v j i)))
